@@ -159,6 +159,15 @@ Theorem C20_cached_partial : forall (V : Type) (veqb : V -> V -> bool) (s : sig 
 Proof. exact (@cached_partial). Qed.
 Print Assumptions C20_cached_partial.
 
+(* the cache is keyed by the callable OBJECT: whatever the history of requests over any family of callables (same name or
+   not), a class returned for callable k is never returned for a different callable k' *)
+Theorem C20_cached_distinct_callables :
+  forall (V : Type) (veqb : V -> V -> bool) (sigs : nat -> sig V) steps st' outs k r k' r' c,
+  p_session veqb facts_gen sigs ([], []) steps = (st', outs) ->
+  In ((k, r), Ok c) (combine steps outs) -> In ((k', r'), Ok c) (combine steps outs) -> k = k'.
+Proof. exact (fun V veqb sigs => @distinct_callables_distinct_classes V veqb facts_gen sigs). Qed.
+Print Assumptions C20_cached_distinct_callables.
+
 (* with ignore_args given as a list (unhashable) the cache is bypassed: two classes for the same arguments *)
 Theorem C20_cached_refuted : exists (s : sig string) (r : cfreq string) st1 c c',
   cf_request String.eqb facts_gen s ([], 0) r = (st1, Ok c)
